@@ -20,6 +20,26 @@ CHECKS: dict[str, tuple[str, str, str, str, str]] = {
             "Held = held on these executions.",
             "runtime monitoring: recorded delivery trace vs independent reference decoder (offset oracle), exhaustive small segmentations",
             "DESIGN.md §4 C01"),
+    "C02": ("W+S", "exploration",
+            "Runtime monitor on transport.write: every write issued through the real helpers is decoded by an independent strict decoder "
+            "(plaintext) or decrypted by an independent Noise responder whose receive nonce is a plain counter (so every successful decrypt "
+            "is a nonce-continuity observation), and compared with the batch given; one write per batch. Every id in api.proto x boundary "
+            "sizes, batches, sessions of thousands of consecutive writes. Held = held on these executions.",
+            "runtime monitoring: wire monitor on transport.write vs independent codec / spec-derived Noise responder (nonce = counter)",
+            "DESIGN.md §4 C02"),
+    "C03": ("W+S", "exploration",
+            "Real APINoiseFrameHelper run against an independent spec-derived NNpsk0 responder for ~16k (quick) fresh handshakes over name / "
+            "expected-name variants, message sets and segmentations (every single cut, pairs, bytewise, random); the monitor records the "
+            "data_received call in which readiness and each delivery happen and compares with byte-offset bookkeeping.",
+            "runtime monitoring: readiness/delivery trace vs independent Noise responder + offset oracle over enumerated segmentations",
+            "DESIGN.md §4 C03"),
+    "C04": ("W+S", "fault_enumeration",
+            "Enumerates one deviation per session - every byte position of every frame (bit flip, replacement), every truncation length, "
+            "replay/swap/drop, every handshake-phase deviation, framing mismatches both ways, key strings of every decoded length - each in 4 "
+            "chunk placements, and judges the recorded deliveries (byte-exact prefix, nothing at/after the deviation), close, error class and "
+            "readiness outcome. Held = held on the enumerated faults.",
+            "runtime monitoring with fault injection: enumerated single-frame corruptions judged by prefix/closed/error-class oracle",
+            "DESIGN.md §4 C04"),
 }
 
 NOT_YET = {
